@@ -644,7 +644,7 @@ func (e *Exec) fieldAddr(th *Thread, fr *Frame, in ssa.Instruction, p *Pointer, 
 		if po, isP := (*p.Slot).(*Poison); isP {
 			panic(unsupported("field of poisoned value: " + po.Why))
 		}
-		panic(unsupported(fmt.Sprintf("FieldAddr on %T at %s", *p.Slot, e.pos(in))))
+		panic(unsupported(fmt.Sprintf("FieldAddr on %T at %s stack=%s", *p.Slot, e.pos(in), e.stack(fr))))
 	}
 	return &Pointer{Slot: &s[field]}
 }
